@@ -51,6 +51,12 @@ def gen_cfg(rng: random.Random):
     crit = rng.choice(CRITS)
     tol = rng.choice([0.0, 0.05, 0.2, 1.0]) if crit in HAS_TOL else None
     thr = rng.choice([0.0, 0.1, 0.25, 0.3, 0.4, 0.5, 0.6, 0.65, 0.75, 0.9, 1.0])
+    if rng.random() < 0.12:
+        # a hair above / below a value the statistics really take (small rationals): a comparison with a
+        # tolerance instead of `>=` then decides differently
+        q = rng.randint(2, 9)
+        base = rng.randint(1, q) / q
+        thr = min(1.0, max(0.0, base * (1 + rng.choice([3e-6, -3e-6, 2e-9, -2e-9, 1e-12]))))
     bf = rng.choice([2, 2, 3, 3, 4, 5, 7])
     return {"crit": crit, "tol": tol, "thr": thr, "bf": bf}
 
